@@ -50,6 +50,7 @@ type Entry struct {
 	Blk     int      // 0 = outside MULTI/EXEC, otherwise id of the EXEC that applied it
 	Err     string   // error reply, if the command failed
 	InMulti bool     // (raw log) the request arrived inside an open MULTI
+	Tag     string   // CLIENT SETNAME of the connection
 }
 
 type Action int
@@ -88,6 +89,12 @@ type Server struct {
 	// LuaErrors collects constructs the mini Lua interpreter could not run (harness errors)
 	LuaErrors []string
 	// Hold, if set, may return a channel; the reply is written only after it is closed.
+	// propagation personality (propagate.go)
+	Propagate bool
+	Wrap1     bool // wrap single-command transactions in MULTI/EXEC too (Redis before 7.0)
+	Repl      []byte
+	ReplDB    int
+	ReplUnits []ReplUnit
 	// Gate, when set, may return a channel the request waits on before it is received (counted, logged, executed)
 	Gate func(connID int, name string, args [][]byte) <-chan struct{}
 	Hold func(connID int, name string, args [][]byte) <-chan struct{}
@@ -116,10 +123,11 @@ type conn struct {
 	dirty   bool // a queue-time error occurred
 	queue   [][][]byte
 	asking  bool
+	tag     string // CLIENT SETNAME
 }
 
 func New() *Server {
-	s := &Server{DBs: map[int]DB{}, CrashAfter: -1, conns: map[int]*conn{}, NowMs: 1_000_000}
+	s := &Server{DBs: map[int]DB{}, CrashAfter: -1, conns: map[int]*conn{}, NowMs: 1_000_000, ReplDB: -1}
 	return s
 }
 
@@ -304,7 +312,7 @@ func (s *Server) db(n int) DB {
 }
 
 func (s *Server) logEntry(c *conn, name string, args [][]byte, blk int, rep interface{}) {
-	e := Entry{Seq: len(s.Log) + 1, Conn: c.id, DB: c.db, Name: name, Args: args, Blk: blk}
+	e := Entry{Seq: len(s.Log) + 1, Conn: c.id, DB: c.db, Name: name, Args: args, Blk: blk, Tag: c.tag}
 	if er, ok := rep.(ErrRep); ok {
 		e.Err = string(er)
 	}
@@ -343,12 +351,17 @@ func (s *Server) dispatch(c *conn, name string, args [][]byte) interface{} {
 		s.blk++
 		blk := s.blk
 		out := make([]interface{}, 0, len(q))
+		var prop [][][]byte
 		for _, a := range q {
 			n := strings.ToLower(string(a[0]))
 			rep := s.execute(c, n, a[1:])
 			s.logEntry(c, n, a[1:], blk, rep)
 			out = append(out, rep)
+			if s.Propagate {
+				prop = append(prop, s.propagated(n, a[1:], rep)...)
+			}
 		}
+		s.appendRepl(c, prop, true)
 		c.asking = false
 		return out
 	}
@@ -377,6 +390,12 @@ func (s *Server) dispatch(c *conn, name string, args [][]byte) interface{} {
 		c.asking = false
 	}
 	s.logEntry(c, name, args, 0, rep)
+	if s.Propagate {
+		s.appendRepl(c, s.propagated(name, args, rep), false)
+	}
+	if name == "client" && len(args) == 2 && strings.EqualFold(string(args[0]), "setname") {
+		c.tag = string(args[1])
+	}
 	return rep
 }
 
